@@ -287,3 +287,29 @@ func Exists(vars []Term, body Term) Term {
 	sb.WriteString(")")
 	return Term{sb.String(), SBool}
 }
+
+// ExistsT: exists with optional patterns (used when the formula ends up in a negative position).
+func ExistsT(vars []Term, body Term, triggers ...[]Term) Term {
+	if len(triggers) == 0 {
+		return Exists(vars, body)
+	}
+	var sb strings.Builder
+	sb.WriteString("(exists (")
+	for _, v := range vars {
+		fmt.Fprintf(&sb, "(%s %s)", v.S, v.Sort)
+	}
+	sb.WriteString(") (! ")
+	sb.WriteString(body.S)
+	for _, tr := range triggers {
+		sb.WriteString(" :pattern (")
+		for i, t := range tr {
+			if i > 0 {
+				sb.WriteByte(' ')
+			}
+			sb.WriteString(t.S)
+		}
+		sb.WriteString(")")
+	}
+	sb.WriteString("))")
+	return Term{sb.String(), SBool}
+}
